@@ -31,6 +31,7 @@ PURE_FOREIGN = [
     r'^std::option::Option::<T>::as_ref$',
     r'^std::option::Option::<T>::(unwrap|expect|cloned|copied)$',   # read-only (may panic: C03 ledger)
     r'^robust::orient2d$',
+    r'^std::ops::Fn::call$',      # the comparator closure of the splay tree: gets two &K, cannot reach the tree (trusted: does not re-enter)
     r'^std::cell::UnsafeCell::<T>::get$',
     r'^<std::boxed::Box<T, A> as std::ops::Drop>::drop$',     # frees the allocation of a moved-out box
     r'^std::cmp::PartialEq::(eq|ne)$',
